@@ -313,8 +313,12 @@ func (c *channel) reconnect(maxRetries float64) {
 			return
 		}
 		c.streamCtx, c.cancelStream = context.WithCancel(c.parentCtx)
-		c.gorumsStream, err = c.gorumsClient.NodeStream(c.streamCtx)
+		var stream ordering.Gorums_NodeStreamClient
+		stream, err = c.gorumsClient.NodeStream(c.streamCtx)
 		if err == nil {
+			// only replace the stream on success; a sender that has already passed
+			// its streamBroken check must never find a nil stream
+			c.gorumsStream = stream
 			c.streamBroken.clear()
 			c.streamMut.Unlock()
 			return
